@@ -9,6 +9,10 @@ props = [json.loads(l)["id"] for l in (V / "properties.jsonl").read_text().split
 checks = []
 for pid in props:
     c = data["checks"].get(pid)
+    pm = V / "harness" / ("p%s.manifest.json" % pid)
+    if pid in data.get("claimed", []) and pm.exists():
+        c = json.loads(pm.read_text())
+        data["checks"][pid] = c
     if not c:
         continue
     checks.append({
